@@ -101,12 +101,14 @@ def judge_open(doc, keep, dup, result, exc):
     seen = set()
     for tfile, tgot in zip(doc["tiers"], got["tiers"]):
         n = tfile["name"]
+        # names are assigned in file order: a tier keeps its name unless an earlier tier already *ended up* with it
+        # (a literal 'a_2' after a duplicate that was renamed to 'a_2' may therefore be renamed too)
         if n not in seen:
             if tgot["name"] != n:
-                return False, "tier name %r, the file says %r" % (tgot["name"], n)
+                return False, "tier name %r, the file says %r and no earlier tier uses that name" % (tgot["name"], n)
         elif tgot["name"] == n:
             return False, "duplicate of %r was not renamed" % (n,)
-        seen.add(n)
+        seen.add(tgot["name"])
         kind = "I" if tfile["class"] == "IntervalTier" else "P"
         if tgot["t"] != kind:
             return False, "tier %r type %s, the file says %s" % (n, tgot["t"], tfile["class"])
@@ -202,9 +204,17 @@ def workload(tier, rng, shard, nshards, work):
             spec = tggen.to_spec(data)
             dup = i % 7 == 3 and len(spec["tiers"]) >= 2
             if dup:
-                spec["tiers"][-1]["name"] = spec["tiers"][0]["name"]
-                if len(spec["tiers"]) >= 3 and rng.random() < 0.5:
-                    spec["tiers"][1]["name"] = spec["tiers"][0]["name"]
+                base = spec["tiers"][0]["name"]
+                spec["tiers"][-1]["name"] = base
+                if len(spec["tiers"]) >= 3:
+                    r = rng.random()
+                    if r < 0.35:
+                        spec["tiers"][1]["name"] = base
+                    elif r < 0.7:
+                        # a name a renaming scheme is likely to generate is already taken literally (before or after the duplicate)
+                        spec["tiers"][1]["name"] = base + rng.choice(["_2", "_1", "_3", "2", " (2)", "_"])
+                        if rng.random() < 0.5:
+                            spec["tiers"][1], spec["tiers"][-1] = spec["tiers"][-1], spec["tiers"][1]
             lcs = tggen.label_classes(data)
             base_classes = []
             if "quote" in lcs:
